@@ -317,12 +317,12 @@ def r065(eng, rep, tu, fns) -> None:
                         cur = par
                     rep.check(bad is None, "R06.5", "plugins/fcp_can_c/templates/can_signal_parser.c", name, "<< start (%s)" % x.qtype, "kept at 64 bits up to the return",
                               "a field positioned in the 64-bit frame word by `<< start` loses its high bits: %s" % bad)
-    rep.floor("R06.5", "`<< start` placements in the C run time", n, 8)
+    rep.floor("R06.5", "`<< start` placements in the C run time", n, 2)
 
 
 def r066(eng, rep, fns) -> None:
     sibs = sorted(n for n in fns if re.fullmatch(r"can_decode_signal_as_int\d+_t", n))
-    rep.floor("R06.6", "signed decoders", len(sibs), 4)
+    rep.floor("R06.6", "signed decoders", len(sibs), 2)
     for name in sibs:
         d = [x for x in fns[name] if body_of(x) is not None]
         if not d:
